@@ -6,6 +6,7 @@ Inductive probe :=
 | PAt (x : N)                 (* $a at x *)
 | PIn (lo hi : N)             (* $a in (lo..hi) *)
 | PCount                      (* #a *)
+| PCountIn (lo hi : N)        (* #a in (lo..hi) *)
 | POffset (i : N)             (* @a[i], 1-based *)
 | PUint (n x : N)             (* uint8/16/32(x): n bytes, little endian *)
 | PFilesize                   (* defined filesize *)
@@ -32,6 +33,7 @@ Definition probe_model (can_refetch : bool) (regions : list fregion) (t : list s
   | PAt x => RBool (find_at t x)
   | PIn lo hi => RBool (find_in t lo hi)
   | PCount => RInt (Some (nlen t))
+  | PCountIn lo hi => RInt (Some (count_matches_in t lo hi))
   | POffset i => RInt (if i =? 0 then None else option_map abs_off (nnth_opt (i - 1) t))
   | PUint n x => RInt (read_uint can_refetch regions x n)
   | PFilesize => RBool (match filesize_fragmented regions with Some _ => true | None => false end)
@@ -45,6 +47,8 @@ Definition probe_spec (can_refetch : bool) (regions : list fregion) (t : list sm
   | PAt x => RBool (spec_at t x)
   | PIn lo hi => RBool (spec_in t lo hi)
   | PCount => RInt (Some (nlen t))
+  | PCountIn lo hi =>
+      RInt (Some (nlen (filter (fun m => (lo <=? sm_base m + sm_off m) && (sm_base m + sm_off m <=? hi)) t)))
   | POffset i => RInt (if i =? 0 then None
                        else option_map (fun m => sm_base m + sm_off m) (nnth_opt (i - 1) t))
   | PUint n x => RInt (option_map le_value (spec_read can_refetch regions x n))
@@ -62,7 +66,7 @@ Fixpoint ascending_regions (prev_end : N) (regions : list fregion) : bool :=
   | r :: rest => (prev_end <=? f_start r) && ascending_regions (f_start r + f_described r) rest
   end.
 Definition probe_by_address (p : probe) : bool :=
-  match p with PAt _ | PIn _ _ | PUint _ _ | PChecksum _ _ => true | _ => false end.
+  match p with PAt _ | PIn _ _ | PCountIn _ _ | PUint _ _ | PChecksum _ _ => true | _ => false end.
 Definition kf_region_order (regions : list fregion) (probes : list probe) : N :=
   if negb (ascending_regions 0 regions) && existsb probe_by_address probes then 1 else 0.
 
